@@ -53,5 +53,69 @@ __CPROVER_requires(RL_PRE)
 RL_POST(gh_rl_found && gh_rl_target_shape == gh_rl_pos_shape)
 NIX_CANARY(MultiTagHDF5_extents_set) __CPROVER_assigns(RL_ASSIGNS)
 ;
+
+/* ---- EntityWithMetadataHDF5::metadata(id) and SectionHDF5::link(id): links to a SECTION, found by id in the whole file ----
+   same rule: a rejected assignment (empty id: EmptyString, for metadata; no section with that id in the file: runtime_error) leaves the existing link in
+   place and creates none; an accepted one removes the old link (through the setter's own none-overload) and then creates exactly one link to the section's group. */
+typedef struct { int _e; } EntityWithMetadataHDF5;
+typedef struct { int _s; } SectionHDF5;
+typedef struct { int _f; } File;
+typedef struct { int key; } IdFilterT;
+typedef struct { int null; int grp; } SectionP;                 /* shared_ptr<ISection> / <SectionHDF5> */
+typedef struct { SectionP impl_; } Section;
+typedef struct { Section *data; size_t n; } vec_Section;
+extern int gh_sl_found, gh_sl_target_grp, gh_sl_has_old, gh_sl_key, gh_sl_empty_id, gh_sl_searches, gh_sl_search_key, gh_sl_unlinks, gh_sl_links, gh_sl_link_target, gh_sl_link_after_unlinks, gh_sl_name_ok;
+extern Section gh_sl_hit[1];
+static inline bool nstring_empty(const nstring *s)
+{ return gh_sl_empty_id != 0; }
+static inline IdFilterT mk_IdFilter(const nstring *id)
+{ IdFilterT f; f.key = id->id; return f; }
+static inline File sl_file(void)
+{ File f; f._f = 1; return f; }
+static inline File EntityWithMetadataHDF5_file(const EntityWithMetadataHDF5 *self)
+{ return sl_file(); }
+static inline File SectionHDF5_file(const SectionHDF5 *self)
+{ return sl_file(); }
+static inline vec_Section File_findSections(const File *f, IdFilterT filter)
+{ gh_sl_searches++; gh_sl_search_key = filter.key; vec_Section v; v.data = gh_sl_hit; v.n = gh_sl_found ? 1 : 0; return v; }
+static inline SectionP Section_impl(const Section *s)
+{ return s->impl_; }
+static inline H5Group sl_group(void)
+{ H5Group g; g.grp = OWN_GRP; return g; }
+static inline H5Group EntityWithMetadataHDF5_group(const EntityWithMetadataHDF5 *self)
+{ return sl_group(); }
+static inline H5Group SectionHDF5_group(const SectionHDF5 *self)
+{ return sl_group(); }
+static inline bool H5Group_hasGroup_sl(const H5Group *g, const char *name)
+{ __CPROVER_assert(g->grp == OWN_GRP, "the entity's own group"); return gh_sl_has_old != 0 && RL_IS(name); }
+static inline void sl_unlink(void)
+{ gh_sl_unlinks++; }
+static inline void EntityWithMetadataHDF5_metadata_none(EntityWithMetadataHDF5 *self)
+{ sl_unlink(); }
+static inline void SectionHDF5_link_none(SectionHDF5 *self)
+{ sl_unlink(); }
+static inline H5Group SectionP_group(const SectionP *p)
+{ __CPROVER_assert(!p->null, "group() of a section that was found"); H5Group g; g.grp = p->grp; return g; }
+static inline void H5Group_createLink_sl(H5Group *g, H5Group target, const char *name)
+{ __CPROVER_assert(g->grp == OWN_GRP, "the entity's own group"); gh_sl_links++; gh_sl_link_target = target.grp; gh_sl_name_ok = RL_IS(name); gh_sl_link_after_unlinks = gh_sl_unlinks; }
+#define SL_PRE(T) (__CPROVER_is_fresh(self, sizeof(T)) && __CPROVER_is_fresh(id, sizeof(nstring)) && id->id == gh_sl_key && (gh_sl_found == 0 || gh_sl_found == 1) && (gh_sl_has_old == 0 || gh_sl_has_old == 1) && \
+    (gh_sl_empty_id == 0 || gh_sl_empty_id == 1) && gh_sl_hit[0].impl_.null == 0 && gh_sl_hit[0].impl_.grp == gh_sl_target_grp && gh_sl_target_grp >= 10 && \
+    gh_sl_searches == 0 && gh_sl_unlinks == 0 && gh_sl_links == 0 && nix_exc == EXC_NONE)
+#define SL_POST(accepted) \
+__CPROVER_ensures(/*a-rejected-assignment-keeps-the-existing-link-and-creates-none*/ !(accepted) <==> (nix_exc != EXC_NONE && gh_sl_unlinks == 0 && gh_sl_links == 0)) \
+__CPROVER_ensures(/*an-accepted-assignment-replaces-the-link-with-one-to-the-section-of-that-id*/ (accepted) ==> (nix_exc == EXC_NONE && gh_sl_search_key == gh_sl_key && gh_sl_unlinks == (gh_sl_has_old ? 1 : 0) && \
+                  gh_sl_links == 1 && gh_sl_name_ok && gh_sl_link_target == gh_sl_target_grp && gh_sl_link_after_unlinks == gh_sl_unlinks))
+#define SL_ASSIGNS nix_exc, gh_sl_searches, gh_sl_search_key, gh_sl_unlinks, gh_sl_links, gh_sl_link_target, gh_sl_link_after_unlinks, gh_sl_name_ok
+NIX_THROWS void EntityWithMetadataHDF5_metadata_set(EntityWithMetadataHDF5 *self, const nstring *id)
+__CPROVER_requires(SL_PRE(EntityWithMetadataHDF5))
+SL_POST(!gh_sl_empty_id && gh_sl_found)
+__CPROVER_ensures(/*an-empty-id-is-EmptyString-an-unknown-id-runtime_error*/ (gh_sl_empty_id ==> nix_exc == EXC_EmptyString) && ((!gh_sl_empty_id && !gh_sl_found) ==> nix_exc == EXC_runtime_error))
+NIX_CANARY(EntityWithMetadataHDF5_metadata_set) __CPROVER_assigns(SL_ASSIGNS)
+;
+NIX_THROWS void SectionHDF5_link_set(SectionHDF5 *self, const nstring *id)
+__CPROVER_requires(SL_PRE(SectionHDF5) && gh_sl_empty_id == 0)
+SL_POST(gh_sl_found)
+NIX_CANARY(SectionHDF5_link_set) __CPROVER_assigns(SL_ASSIGNS)
+;
 #undef RV
 #endif
